@@ -11,7 +11,7 @@
 
    Models the code after fixes C04-fix-1,2,3 (length checks), C04-fix-8 (TOC range check in Open) and
    C04-fix-9 (nil TOC reader). *)
-From Coq Require Import List ZArith NArith Bool.
+From Coq Require Import String Ascii List ZArith NArith Bool.
 From SV Require Import Gen.Consts.
 Import ListNotations.
 Local Open Scope Z_scope.
@@ -24,6 +24,14 @@ Arguments OutOfFuel {A}.
 
 Definition bytes := list N.
 Definition zlen {A} (l : list A) : Z := Z.of_nat (length l).
+
+(* compact printing of byte strings in the generated case files: lowercase hex, two digits per byte *)
+Definition hexval (a : ascii) : N := let n := N_of_ascii a in if (n <? 58)%N then (n - 48)%N else (n - 87)%N.
+Fixpoint hx (s : string) : bytes :=
+  match s with
+  | String a (String b t) => (16 * hexval a + hexval b)%N :: hx t
+  | _ => []
+  end.
 
 (* Go: l[lo:hi] (bounded by len: the harness hands in slices with cap = len) *)
 Definition sl {A} (l : list A) (lo hi : Z) : option (list A) :=
